@@ -252,6 +252,34 @@ func (c *Check) idProvenance() {
 				}
 			}
 			c.Ob("R4", fnName(fn)+": every id handed to a keeper derives from the message's id", pos, bad == "", "ids not derived from the message: "+bad)
+			// records are fetched by their own id (named by the message), never found by a scan keyed on a parent id
+			for _, call := range callsIn(fn, false) {
+				cc := call.Common()
+				if !cc.IsInvoke() || cc.Method == nil {
+					continue
+				}
+				res := cc.Method.Type().(*types.Signature).Results()
+				if res.Len() == 0 {
+					continue
+				}
+				rt := res.At(0).Type().String()
+				want := ""
+				for rec, idt := range map[string]string{"market/types.Order": "types.OrderID", "market/types.Bid": "types.BidID", "market/types.Lease": "types.LeaseID", "deployment/types.Group": "types.GroupID", "deployment/types.Deployment": "types.DeploymentID"} {
+					if strings.HasSuffix(rt, rec) {
+						want = idt
+					}
+				}
+				if want == "" || strings.HasPrefix(cc.Method.Name(), "Create") {
+					continue
+				}
+				okID := false
+				for _, a := range cc.Args {
+					if strings.HasSuffix(a.Type().String(), want) {
+						okID = true
+					}
+				}
+				c.Ob("R4", fnName(fn)+": "+cc.Method.Name()+" fetches the "+shortName(rt)+" by its own id", call.Pos(), okID, "the record acted upon is looked up through a parent id (a scan), so it need not be the one the message names")
+			}
 		}
 	}
 	if n < 19 {
